@@ -177,7 +177,12 @@ ChangePoint(e) ==
       okidx == ChangePointEnabled(mdl, k)
       v == IF okidx /\ k <= e.m.npt THEN e.m.obj[k] ELSE 0
       pred == IF okidx THEN ChangePointM(mdl, k, v, e.enarg) ELSE mdl
-  IN ModelEv(e, pred, << <<"cp_index", {"C17"}, okidx>>, <<"cp_evalnum_is_current_point", {"C03", "C11"}, e.enarg = nx>> >>)
+  IN ModelEv(e, pred, << <<"cp_index", {"C17"}, okidx>>, <<"cp_evalnum_is_current_point", {"C03", "C11"}, Cfg.parallel \/ e.enarg = nx>>,   \* (parallel initialisation evaluates all points first)
+                         \* the incumbent slot itself may only be overwritten by a worse (or NaN) point after the incumbent has been saved (soft restart
+                         \* with move_xk saves first; no other site replaces the incumbent by a worse point): otherwise the best point is lost on the spot
+                         <<"incumbent_not_overwritten_unsaved", {"C04", "C08"},
+                              (Cfg.onesample /\ okidx /\ k = mdl.kopt /\ Len(mdl.slots) >= k /\ ~IsNaN(ObjOpt(mdl)) /\ ~Leq(v, ObjOpt(mdl)))
+                                 => (mdl.save.has /\ Leq(mdl.save.obj, ObjOpt(mdl)))>> >>)
 
 AddSample(e) ==
   LET k == e.k + 1
@@ -351,7 +356,7 @@ Diag(e) ==
             <<"diag_rho_ge_documented_rhoend", {"C18"}, \A i \in Row : e.nruns[i] + 1 <= Len(Cfg.rhoenddoc) /\ e.rho[i] >= Cfg.rhoenddoc[e.nruns[i] + 1]>>,
             <<"diag_delta_le_1e10", {"C18"}, \A i \in Row : e.delta[i] <= Cfg.r1e10>>,
             <<"diag_rho_monotone_in_run", {"C18"}, Cfg.resetrho \/ \A i \in 1..(N - 1) : sameRun(i) => e.rho[Nx(i)] <= e.rho[i]>>,
-            <<"diag_best_monotone", {"C18"}, (Cfg.det /\ ~Cfg.reg) => \A i \in 1..(N - 1) : sameRun(i) => Leq(e.fk[Nx(i)], e.fk[i]) \/ IsNaN(e.fk[i])>>,
+            <<"diag_best_monotone", {"C18"}, (Cfg.det /\ ~Cfg.reg) => \A i \in 1..(N - 1) : Leq(e.fk[Nx(i)], e.fk[i]) \/ IsNaN(e.fk[i])>>,
             <<"diag_iters_consecutive", {"C18"}, \A i \in Row : e.iters_total[i] = i - 1>>,
             <<"diag_iter_this_run", {"C18"}, \A i \in 1..(N - 1) : e.iter_this_run[Nx(i)] = (IF sameRun(i) THEN e.iter_this_run[i] + 1 ELSE 0)>>,
             <<"diag_counters_monotone", {"C18"}, \A i \in 1..(N - 1) : e.nf[Nx(i)] >= e.nf[i] /\ e.nx[Nx(i)] >= e.nx[i] /\ e.nruns[Nx(i)] >= e.nruns[i]>>,
